@@ -140,8 +140,8 @@ def oracle(case, rec, an, streams, mb):
             viol.append(("custom-options|%s" % sop["op"], "custom options of %s changed" % sop["op"]))
         def strip(l):
             l = list(l)
-            while l and l[-1] < 0:
-                l.pop()  # a trailing omitted optional operand is the same as a shorter operand list
+            while _LENIENT[0] and l and l[-1] < 0:
+                l.pop()  # option-less corner models only: Vela normalises a missing optional operand to an explicit -1
             return l
         if len(strip(op["inputs"])) != len(strip(sop["inputs"])):
             viol.append(("operand-count|%s" % sop["op"], "operator %s has %d operands, source has %d (%s -> %s)" % (
